@@ -692,16 +692,16 @@ Proof.
     cbn [step]. rewrite Hc.
     assert (Ro : forall h', h' <> h -> react h' (f h') (Cancel h) = (f h', [])).
     { intros h' Hn. apply react_cancel_other. exact Hn. }
-    assert (Out : forall p, react h (f h) (Cancel h) = (PFin, [Done h RCancelled]) ->
+    assert (Out : react h (f h) (Cancel h) = (PFin, [Done h RCancelled]) ->
               forall h', filter (concerns h') [Done h RCancelled] = snd (react h' (f h') (Cancel h))).
-    { intros _ Rh h'. destruct (Nat.eq_dec h' h) as [->|Hn].
+    { intros Rh h'. destruct (Nat.eq_dec h' h) as [->|Hn].
       - rewrite Rh. apply concerns_done_same.
       - rewrite (Ro _ Hn). apply concerns_done_other. exact Hn. }
     destruct (mem_nat h (live s)) eqn:ML.
     + apply mem_nat_true in ML. pose proof (proj1 (inv_live _ _ _ I h) ML) as (k0 & id0 & subs0 & P0).
       assert (Rh : react h (f h) (Cancel h) = (PFin, [Done h RCancelled])).
       { rewrite react_cancel, P0, Nat.eqb_refl. reflexivity. }
-      cbn [fst snd]. split; [exact (Out PFin Rh)|]. split; [cbn; exact Hc|].
+      cbn [fst snd]. split; [exact (Out Rh)|]. split; [cbn; exact Hc|].
       intros _. apply (inv_cancel_live s f used h); try assumption.
       * unfold adv. rewrite Rh. reflexivity.
       * intros h' Hn. unfold adv. rewrite (Ro _ Hn). reflexivity.
@@ -709,7 +709,7 @@ Proof.
       * pose proof (proj1 (inv_resum _ _ _ I _ _) (rs_get_in _ _ _ R)) as P0.
         assert (Rh : react h (f h) (Cancel h) = (PFin, [Done h RCancelled])).
         { rewrite react_cancel, P0, Nat.eqb_refl. reflexivity. }
-        cbn [fst snd]. split; [exact (Out PFin Rh)|]. split; [cbn; exact Hc|].
+        cbn [fst snd]. split; [exact (Out Rh)|]. split; [cbn; exact Hc|].
         intros _. apply (inv_cancel_resum s f used h id); try assumption.
         -- unfold adv. rewrite Rh. reflexivity.
         -- intros h' Hn. unfold adv. rewrite (Ro _ Hn). reflexivity.
@@ -727,7 +727,7 @@ Lemma step_closed s e : closed s = true ->
   closed (fst (step s e)) = true /\
   snd (step s e) = match e with Start h _ _ => [Done h RClosed] | _ => [] end.
 Proof.
-  intros Hc. destruct e as [h rk id|a|h]; cbn [step]; rewrite Hc; cbn [fst snd]; auto.
+  intros Hc. destruct e as [h rk id|a|h|h]; cbn [step]; rewrite Hc; cbn [fst snd]; auto.
   split; [|reflexivity]. unfold register. rewrite closed_with_map. exact Hc.
 Qed.
 
@@ -738,10 +738,11 @@ Proof.
   cbn [run]. destruct (step s e) as [s' o] eqn:E.
   destruct (step_closed s e Hc) as [Hc' Ho]. rewrite E in Hc', Ho. cbn [fst snd] in Hc', Ho.
   cbn [view closings map spec_run spec_step]. fold (view h (run s' r)). fold (closings (run s' r)).
-  subst o. destruct e as [h' rk id|a|h'].
+  subst o. destruct e as [h' rk id|a|h'|h'].
   - destruct (Nat.eqb h' h) eqn:Eh.
     + cbn [filter concerns]. rewrite Eh. apply Nat.eqb_eq in Eh. subst h'. f_equal. apply IH. exact Hc'.
     + cbn [filter concerns]. rewrite Eh. f_equal. apply IH. exact Hc'.
+  - cbn [filter]. f_equal. apply IH. exact Hc'.
   - cbn [filter]. f_equal. apply IH. exact Hc'.
   - cbn [filter]. f_equal. apply IH. exact Hc'.
 Qed.
@@ -749,7 +750,7 @@ Qed.
 Lemma wf_from_cons s used e r : wf_from s used (e :: r) = true ->
   ok_event s used e /\ wf_from (fst (step s e)) (used_after used e) r = true.
 Proof.
-  cbn [wf_from]. destruct e as [h rk id|a|h]; cbn [ok_event used_after]; [|auto|auto].
+  cbn [wf_from]. destruct e as [h rk id|a|h|h]; cbn [ok_event used_after]; [|auto|auto|auto].
   intros H. apply andb_true_iff in H as [H H3]. apply andb_true_iff in H as [H1 H2].
   apply negb_true_iff in H1. auto.
 Qed.
@@ -822,23 +823,36 @@ Qed.
 
 Lemma react_none h e : (forall rk id, e <> Start h rk id) -> react h PNone e = (PNone, []).
 Proof.
-  intros H. destruct e as [h' rk id|a|h']; try reflexivity. cbn [react].
+  intros H. destruct e as [h' rk id|a|h'|h']; try reflexivity. cbn [react].
   destruct (Nat.eqb h' h) eqn:E; [|reflexivity]. apply Nat.eqb_eq in E. subst. exfalso. exact (H rk id eq_refl).
 Qed.
 
-Lemma react_wait_other h k id subs e : own_ack k id e = false -> react h (PWait k id subs) e = (PWait k id subs, []).
+Lemma react_wait_other h k id subs e : own_ack k id e = false -> e <> Cancel h ->
+  react h (PWait k id subs) e = (PWait k id subs, []).
 Proof.
-  destruct e as [h' rk i|a|h']; try reflexivity. cbn [own_ack react]. intros ->. reflexivity.
+  destruct e as [h' rk i|a|h'|h']; try reflexivity.
+  - cbn [own_ack react]. intros -> _. reflexivity.
+  - intros _ Hn. cbn [react]. destruct (Nat.eqb h' h) eqn:E; [|reflexivity]. apply Nat.eqb_eq in E. subst. congruence.
 Qed.
 
-Lemma react_wait_or h k id subs e :
-  react h (PWait k id subs) e = if own_ack k id e then react h (PWait k id subs) e else (PWait k id subs, []).
-Proof. destruct (own_ack k id e) eqn:O; [reflexivity|apply react_wait_other; exact O]. Qed.
+Definition on_cancel (h : nat) (p : phase) (e : event) : phase * list out :=
+  match e with
+  | Cancel h' => if Nat.eqb h' h then (PFin, [Done h RCancelled]) else (p, [])
+  | _ => (p, [])
+  end.
 
-Lemma react_resum_other h id e : e <> Resume h -> react h (PResum id) e = (PResum id, []).
+Lemma react_wait_or h k id subs e :
+  react h (PWait k id subs) e =
+  if own_ack k id e then react h (PWait k id subs) e else on_cancel h (PWait k id subs) e.
 Proof.
-  intros H. destruct e as [h' rk i|a|h']; try reflexivity. cbn [react].
-  destruct (Nat.eqb h' h) eqn:E; [|reflexivity]. apply Nat.eqb_eq in E. subst. congruence.
+  destruct (own_ack k id e) eqn:O; [reflexivity|].
+  destruct e as [h' rk i|a|h'|h']; try reflexivity. cbn [own_ack] in O. cbn [react on_cancel]. rewrite O. reflexivity.
+Qed.
+
+Lemma react_resum_other h id e : e <> Resume h -> e <> Cancel h -> react h (PResum id) e = (PResum id, []).
+Proof.
+  intros H H2. destruct e as [h' rk i|a|h'|h']; try reflexivity; cbn [react];
+    (destruct (Nat.eqb h' h) eqn:E; [|reflexivity]); apply Nat.eqb_eq in E; subst; congruence.
 Qed.
 
 (* after its return a request does nothing more *)
@@ -848,10 +862,11 @@ Proof.
   induction a as [|e r IH]; intros c cls Hn L; destruct cls as [|c' cr]; try discriminate; [reflexivity|].
   assert (Hr : no_start h r) by (intros rk id Hin; apply (Hn rk id); right; exact Hin).
   cbn [spec_run spec_step length repeat]. destruct c.
-  - destruct e as [h' rk id|a0|h'].
+  - destruct e as [h' rk id|a0|h'|h'].
     + destruct (Nat.eqb h' h) eqn:E.
       * apply Nat.eqb_eq in E. subst. exfalso. apply (Hn rk id). left. reflexivity.
       * rewrite IH; [reflexivity|exact Hr|cbn in L; lia].
+    + rewrite IH; [reflexivity|exact Hr|cbn in L; lia].
     + rewrite IH; [reflexivity|exact Hr|cbn in L; lia].
     + rewrite IH; [reflexivity|exact Hr|cbn in L; lia].
   - replace (react h PFin e) with (PFin, @nil out) by (destruct e; reflexivity).
@@ -872,10 +887,11 @@ Proof. induction a as [|e r IH]; [reflexivity|]. destruct e; cbn [app starts]; r
 Lemma in_starts h evs : In h (starts evs) <-> exists rk id, In (Start h rk id) evs.
 Proof.
   induction evs as [|e r IH]; [split; [intros []|intros (rk & id & [])]|].
-  destruct e as [h' rk' id'|a|h']; cbn [starts In]; rewrite ?IH.
+  destruct e as [h' rk' id'|a|h'|h']; cbn [starts In]; rewrite ?IH.
   - split.
     + intros [->|(rk & id & H)]; [exists rk', id'; left; reflexivity|exists rk, id; right; exact H].
     + intros (rk & id & [H|H]); [injection H as -> _ _; left; reflexivity|right; exists rk, id; exact H].
+  - split; intros (rk & id & H); exists rk, id; [right; exact H|destruct H as [H|H]; [discriminate|exact H]].
   - split; intros (rk & id & H); exists rk, id; [right; exact H|destruct H as [H|H]; [discriminate|exact H]].
   - split; intros (rk & id & H); exists rk, id; [right; exact H|destruct H as [H|H]; [discriminate|exact H]].
 Qed.
@@ -885,7 +901,7 @@ Lemma wf_from_starts : forall evs s used, wf_from s used evs = true ->
 Proof.
   induction evs as [|e r IH]; intros s used W; [split; [constructor|intros h []]|].
   apply wf_from_cons in W as [Hok W]. destruct (IH _ _ W) as [ND Hu].
-  destruct e as [h rk id|a|h]; cbn [starts used_after] in *; [|split; assumption|split; assumption].
+  destruct e as [h rk id|a|h|h]; cbn [starts used_after] in *; [|split; assumption|split; assumption|split; assumption].
   destruct Hok as [Hm _]. split.
   - constructor; [|exact ND]. intros Hin. apply (Hu h Hin). left. reflexivity.
   - intros h' [<-|Hin].
@@ -914,16 +930,17 @@ Proof. apply repeat_app. Qed.
 (* from the start of the history up to the point where h waits for its first acknowledgement *)
 Lemma prefix_to_wait h rk id pre mid :
   no_start h pre -> (forall e, In e mid -> own_ack (first_kind rk) id e = false) ->
+  ~ In (Cancel h) mid ->
   let A := pre ++ Start h rk id :: mid in
   spec_run h (PNone, false) A (repeat false (length A)) = repeat [] (length A) /\
   spec_end h (PNone, false) A (repeat false (length A)) = (PWait (first_kind rk) id (subs_of rk), false).
 Proof.
-  intros Hn Hm A. unfold A. rewrite app_length. cbn [length].
+  intros Hn Hm Hcn A. unfold A. rewrite app_length. cbn [length].
   rewrite !repeat_app_len. cbn [repeat].
   destruct (idle_segment h PNone pre) as [P1 P2].
   { intros e Hin. apply react_none. intros rk' id' ->. exact (Hn _ _ Hin). }
   destruct (idle_segment h (PWait (first_kind rk) id (subs_of rk)) mid) as [M1 M2].
-  { intros e Hin. apply react_wait_other. exact (Hm e Hin). }
+  { intros e Hin. apply react_wait_other; [exact (Hm e Hin)|intros ->; exact (Hcn Hin)]. }
   rewrite spec_run_app, spec_end_app by (rewrite repeat_length; reflexivity).
   rewrite P1, P2. cbn [spec_run spec_end spec_step react]. rewrite Nat.eqb_refl. cbn [fst].
   rewrite M1, M2. split; reflexivity.
@@ -948,11 +965,12 @@ Theorem completes_at_own_ack evs pre h rk id mid a post :
   first_kind rk <> KPubRec ->
   own_ack (first_kind rk) id (Recv a) = true ->
   (forall e, In e mid -> own_ack (first_kind rk) id e = false) ->
+  ~ In (Cancel h) mid ->
   let T := length (pre ++ Start h rk id :: mid) in
   firstn T (closings (run sig_init evs)) = repeat false T ->
   view h (run sig_init evs) = repeat [] T ++ [Done h (ack_result rk a)] :: repeat [] (length post).
 Proof.
-  intros W E Hk Ha Hm T Hc. rewrite (refines evs h W).
+  intros W E Hk Ha Hm Hcn T Hc. rewrite (refines evs h W).
   destruct (wf_unique_start evs pre h rk id _ W E) as [Np Nq].
   assert (Npost : no_start h post).
   { intros rk' id' Hin. apply (Nq rk' id'). apply in_or_app. right. right. exact Hin. }
@@ -967,7 +985,7 @@ Proof.
   rewrite Ec, E.
   replace (pre ++ Start h rk id :: mid ++ Recv a :: post) with ((pre ++ Start h rk id :: mid) ++ Recv a :: post)
     by (rewrite <- app_assoc; reflexivity).
-  destruct (prefix_to_wait h rk id pre mid Np Hm) as [R1 R2]. fold T in R1, R2.
+  destruct (prefix_to_wait h rk id pre mid Np Hm Hcn) as [R1 R2]. fold T in R1, R2.
   rewrite spec_run_app by (rewrite repeat_length; reflexivity). rewrite R1, R2.
   f_equal. cbn [spec_run spec_step]. rewrite react_recv.
   cbn [own_ack] in Ha. rewrite Ha. rewrite (on_ack_result h rk id a Hk). f_equal.
@@ -989,6 +1007,7 @@ Theorem qos2_completes_at_pubcomp evs pre h id m1 a1 m2 m3 a2 post :
   (forall e, In e m1 -> own_ack KPubRec id e = false) ->
   ~ In (Resume h) m2 ->
   (forall e, In e m3 -> own_ack KPubComp id e = false) ->
+  ~ In (Cancel h) (m1 ++ m2 ++ m3) ->
   let T1 := length (pre ++ Start h RPub2 id :: m1) in
   let T3 := (T1 + (S (length m2) + S (length m3)))%nat in
   firstn T3 (closings (run sig_init evs)) = repeat false T3 ->
@@ -996,7 +1015,10 @@ Theorem qos2_completes_at_pubcomp evs pre h id m1 a1 m2 m3 a2 post :
     repeat [] (T1 + S (length m2)) ++ [WPubRel h id] :: repeat [] (length m3)
     ++ [Done h (RSuccess [])] :: repeat [] (length post).
 Proof.
-  intros W E Ha1 Ha2 Hm1 Hm2 Hm3 T1 T3 Hc. rewrite (refines evs h W).
+  intros W E Ha1 Ha2 Hm1 Hm2 Hm3 Hcn T1 T3 Hc. rewrite (refines evs h W).
+  assert (Hc1 : ~ In (Cancel h) m1) by (intros X; apply Hcn; apply in_or_app; left; exact X).
+  assert (Hc2 : ~ In (Cancel h) m2) by (intros X; apply Hcn; apply in_or_app; right; apply in_or_app; left; exact X).
+  assert (Hc3 : ~ In (Cancel h) m3) by (intros X; apply Hcn; apply in_or_app; right; apply in_or_app; right; exact X).
   destruct (wf_unique_start evs pre h RPub2 id _ W E) as [Np Nq].
   assert (Npost : no_start h post).
   { intros rk' id' Hin. apply (Nq rk' id'). apply in_or_app. right. right.
@@ -1014,13 +1036,13 @@ Proof.
   assert (Lp : length cpost = length post).
   { rewrite Ec, app_length, repeat_length in Lc. cbn [length] in Lc. lia. }
   rewrite Ec, E'. unfold T3. rewrite !repeat_app_len, <- !app_assoc.
-  destruct (prefix_to_wait h RPub2 id pre m1 Np Hm1) as [R1 R2]. fold A in R1, R2. fold T1 in R1, R2.
+  destruct (prefix_to_wait h RPub2 id pre m1 Np Hm1 Hc1) as [R1 R2]. fold A in R1, R2. fold T1 in R1, R2.
   cbn [first_kind subs_of] in R1, R2.
   rewrite spec_run_app by (rewrite repeat_length; reflexivity). rewrite R1, R2.
   f_equal.
   (* PUBREC, then idle until Resume *)
   destruct (idle_segment h (PResum id) m2) as [B1 B2].
-  { intros e Hin. apply react_resum_other. intros ->. exact (Hm2 Hin). }
+  { intros e Hin. apply react_resum_other; intros ->; [exact (Hm2 Hin)|exact (Hc2 Hin)]. }
   rewrite spec_run_app by (cbn [length repeat]; rewrite repeat_length; reflexivity).
   assert (S1 : spec_step h (PWait KPubRec id [], false) (Recv a1) false = ((PResum id, false), [])).
   { cbn [spec_step]. rewrite react_recv. cbn [own_ack] in Ha1. rewrite Ha1. reflexivity. }
@@ -1028,7 +1050,7 @@ Proof.
   cbn [app]. f_equal. f_equal.
   (* Resume: PUBREL, then idle until PUBCOMP *)
   destruct (idle_segment h (PWait KPubComp id []) m3) as [C1 C2].
-  { intros e Hin. apply react_wait_other. exact (Hm3 e Hin). }
+  { intros e Hin. apply react_wait_other; [exact (Hm3 e Hin)|intros ->; exact (Hc3 Hin)]. }
   assert (S2 : spec_step h (PResum id, false) (Resume h) false = ((PWait KPubComp id [], false), [WPubRel h id])).
   { cbn [spec_step react]. rewrite Nat.eqb_refl. reflexivity. }
   cbn [spec_run]. rewrite S2. f_equal.
@@ -1082,15 +1104,15 @@ Lemma hist_step h pre p cl e c : hist h pre p ->
   hist h (pre ++ [e]) (fst (fst (spec_step h (p, cl) e c))).
 Proof.
   intros H. cbn [spec_step]. destruct cl.
-  - destruct e as [h' rk id|a|h']; try (apply hist_mono; exact H).
+  - destruct e as [h' rk id|a|h'|h']; try (apply hist_mono; exact H).
     destruct (Nat.eqb h' h); [exact Logic.I|apply hist_mono; exact H].
   - destruct (react h p e) as [p' o] eqn:R. cbn [fst].
     destruct p as [|k id subs|id|].
-    + destruct e as [h' rk id|a|h']; cbn [react] in R; try (injection R as <- _; exact Logic.I).
+    + destruct e as [h' rk id|a|h'|h']; cbn [react] in R; try (injection R as <- _; exact Logic.I).
       destruct (Nat.eqb h' h) eqn:E; injection R as <- _; [|exact Logic.I].
       apply Nat.eqb_eq in E. subst h'. left. exists (length pre), rk. split; [apply nth_error_snoc_new|auto].
     + rewrite react_wait_or in R. destruct (own_ack k id e) eqn:O.
-      * destruct e as [h' rk i|a|h']; try discriminate. cbn [own_ack] in O.
+      * destruct e as [h' rk i|a|h'|h']; try discriminate. cbn [own_ack] in O.
         apply key_eqb_true in O as [Ka Ia]. rewrite react_recv in R.
         replace (akind_eqb (a_kind a) k && (a_id a =? id)) with true in R by (symmetry; apply key_eqb_true; auto).
         destruct k; cbn [on_ack] in R;
@@ -1101,13 +1123,15 @@ Proof.
         destruct rk; try discriminate. exists p0, (length pre).
         split; [exact (nth_error_lt _ _ _ E0)|]. split; [apply nth_error_snoc_old; exact E0|].
         exists a. split; [apply nth_error_snoc_new|auto].
-      * injection R as <- _. apply hist_mono. exact H.
-    + destruct e as [h' rk i|a|h']; cbn [react] in R; try (injection R as <- _; apply hist_mono; exact H).
-      destruct (Nat.eqb h' h) eqn:E; injection R as <- _; [|apply hist_mono; exact H].
-      apply Nat.eqb_eq in E. subst h'. destruct H as (p0 & t1 & L & E0 & E1).
-      right. split; [reflexivity|]. split; [reflexivity|]. exists p0, t1, (length pre).
-      split; [exact L|]. split; [exact (is_ack_lt _ _ _ _ E1)|].
-      split; [apply nth_error_snoc_old; exact E0|]. split; [apply is_ack_snoc; exact E1|apply nth_error_snoc_new].
+      * destruct e as [h' rk i|a|h'|h']; cbn [on_cancel] in R; try (injection R as <- _; apply hist_mono; exact H).
+        destruct (Nat.eqb h' h); injection R as <- _; [exact Logic.I|apply hist_mono; exact H].
+    + destruct e as [h' rk i|a|h'|h']; cbn [react] in R; try (injection R as <- _; apply hist_mono; exact H).
+      * destruct (Nat.eqb h' h) eqn:E; injection R as <- _; [|apply hist_mono; exact H].
+        apply Nat.eqb_eq in E. subst h'. destruct H as (p0 & t1 & L & E0 & E1).
+        right. split; [reflexivity|]. split; [reflexivity|]. exists p0, t1, (length pre).
+        split; [exact L|]. split; [exact (is_ack_lt _ _ _ _ E1)|].
+        split; [apply nth_error_snoc_old; exact E0|]. split; [apply is_ack_snoc; exact E1|apply nth_error_snoc_new].
+      * destruct (Nat.eqb h' h); injection R as <- _; [exact Logic.I|apply hist_mono; exact H].
     + replace p' with PFin by (destruct e; cbn [react] in R; congruence). exact Logic.I.
 Qed.
 
@@ -1125,14 +1149,17 @@ Lemma success_at_step h pre p cl e c r g :
   justified (pre ++ e :: r) h g (length pre).
 Proof.
   intros H Hin. cbn [spec_step] in Hin. destruct cl.
-  { destruct e as [h' rk id|a|h']; try contradiction.
+  { destruct e as [h' rk id|a|h'|h']; try contradiction.
     destruct (Nat.eqb h' h); [destruct Hin as [Hin|[]]; discriminate|contradiction]. }
   destruct (react h p e) as [p' o] eqn:R. cbn [snd] in Hin.
   destruct p as [|k id subs|id|].
-  - destruct e as [h' rk id|a|h']; cbn [react] in R; try (injection R as _ <-; contradiction).
+  - destruct e as [h' rk id|a|h'|h']; cbn [react] in R; try (injection R as _ <-; contradiction).
     destruct (Nat.eqb h' h); injection R as _ <-; contradiction.
-  - rewrite react_wait_or in R. destruct (own_ack k id e) eqn:O; [|injection R as _ <-; contradiction].
-    destruct e as [h' rk i|a|h']; try discriminate. cbn [own_ack] in O.
+  - rewrite react_wait_or in R. destruct (own_ack k id e) eqn:O.
+    2:{ destruct e as [h' rk i|a|h'|h']; cbn [on_cancel] in R; try (injection R as _ <-; contradiction).
+        destruct (Nat.eqb h' h); injection R as _ <-; [|contradiction].
+        destruct Hin as [Hin|[]]. discriminate. }
+    destruct e as [h' rk i|a|h'|h']; try discriminate. cbn [own_ack] in O.
     apply key_eqb_true in O as [Ka Ia]. rewrite react_recv in R.
     replace (akind_eqb (a_kind a) k && (a_id a =? id)) with true in R by (symmetry; apply key_eqb_true; auto).
     assert (Hack : forall k', a_kind a = k' -> is_ack k' id (nth_error (pre ++ Recv a :: r) (length pre))).
@@ -1162,9 +1189,9 @@ Proof.
       destruct H as [(p0 & rk & E0 & K & S)|(K & _)]; [|discriminate].
       destruct rk; try discriminate. exists p0, RUnsub, id.
       split; [exact (nth_error_lt _ _ _ E0)|]. split; [apply nth_error_app_old; exact E0|]. split; auto.
-  - destruct e as [h' rk i|a|h']; cbn [react] in R; try (injection R as _ <-; contradiction).
-    destruct (Nat.eqb h' h); injection R as _ <-; [|contradiction].
-    destruct Hin as [Hin|[]]. discriminate.
+  - destruct e as [h' rk i|a|h'|h']; cbn [react] in R; try (injection R as _ <-; contradiction);
+      (destruct (Nat.eqb h' h); injection R as _ <-; [|contradiction]);
+      destruct Hin as [Hin|[]]; discriminate.
   - replace o with (@nil out) in Hin by (destruct e; cbn [react] in R; congruence). contradiction.
 Qed.
 
@@ -1281,16 +1308,36 @@ Proof.
   - exact (IH _ (adv f e) _ (I' eq_refl) C W Hc').
 Qed.
 
-(* what "a waiter is registered under (kind, id)" means in terms of the history: some request
-   is waiting for exactly this acknowledgement *)
+(* what "a caller is blocked waiting for (kind, id)" ([awaited]: a waiter is registered under
+   that key and its caller has not given up) means in terms of the history *)
 Theorem awaited_iff_waiting evs k id : wf evs = true -> closed (state_after sig_init evs) = false ->
-  (wm_has (smap (state_after sig_init evs) k) id = true <-> exists h subs, phase_after h evs = PWait k id subs).
+  (awaited (state_after sig_init evs) k id = true <-> exists h subs, phase_after h evs = PWait k id subs).
 Proof.
   intros W Hc. destruct (inv_after evs sig_init (fun _ => PNone) [] Inv_init eq_refl W Hc) as [u I].
-  unfold wm_has, phase_after. split.
+  unfold awaited, phase_after. split.
   - destruct (wm_get (smap (state_after sig_init evs) k) id) as [w|] eqn:G; [|discriminate].
-    intros _. exists (w_h w), (w_subs w). exact (inv_map _ _ _ I _ _ _ G).
-  - intros (h & subs & P). rewrite (inv_wait _ _ _ I _ _ _ _ P). reflexivity.
+    intros L. apply mem_nat_true in L. exists (w_h w), (w_subs w). exact (live_entry _ _ _ _ _ _ I G L).
+  - intros (h & subs & P). rewrite (inv_wait _ _ _ I _ _ _ _ P). cbn [w_h]. apply mem_nat_true.
+    apply (inv_live _ _ _ I). unfold phase_after in P. rewrite P. apply is_wait_PWait.
+Qed.
+
+(* An acknowledgement nobody is blocked waiting for — no entry, or the stale entry of a request
+   that gave up (its late acknowledgement) — completes nobody: the event has no output at all. *)
+Lemma unawaited_no_output_step s a : awaited s (a_kind a) (a_id a) = false -> snd (step s (Recv a)) = [].
+Proof.
+  unfold awaited. intros H. cbn [step]. destruct (closed s); [reflexivity|]. unfold take.
+  destruct (wm_get (smap s (a_kind a)) (a_id a)) as [w|]; [|reflexivity].
+  rewrite live_with_map, H. reflexivity.
+Qed.
+
+Theorem late_ack_completes_nobody e1 a e2 :
+  awaited (state_after sig_init e1) (a_kind a) (a_id a) = false ->
+  nth (length e1) (run sig_init (e1 ++ Recv a :: e2)) [] = [].
+Proof.
+  intros H. rewrite run_app, app_nth2 by (rewrite run_length; lia).
+  rewrite run_length, Nat.sub_diag. cbn [run].
+  pose proof (unawaited_no_output_step _ _ H) as O.
+  destruct (step (state_after sig_init e1) (Recv a)) as [s' o]. cbn [snd] in O. subst o. reflexivity.
 Qed.
 
 (* ---------- an acknowledgement that belongs to somebody else ---------- *)
@@ -1369,96 +1416,128 @@ Qed.
 Definition absent (s : sig) (h : nat) : Prop :=
   (forall k id w, wm_get (smap s k) id = Some w -> w_h w <> h) /\ (forall id, ~ In (h, id) (resum s)).
 
-Lemma absent_step s h e : absent s h -> (forall rk id, e <> Start h rk id) ->
-  absent (fst (step s e)) h /\ (forall o, In o (snd (step s e)) -> concerns h o = false).
+Lemma absent_with_live s l h : absent s h -> absent (with_live s l) h.
 Proof.
-  intros [A1 A2] Hn. destruct e as [h' rk id|a|h'].
+  intros [A1 A2]. split; [intros k id w; rewrite smap_with_live; apply A1|exact A2].
+Qed.
+
+Definition only_cancel (h : nat) (os : list out) : Prop :=
+  forall o, In o os -> concerns h o = true -> o = Done h RCancelled.
+
+Lemma only_cancel_nil h : only_cancel h [].
+Proof. intros o []. Qed.
+
+Lemma only_cancel_other h h' r : h' <> h -> only_cancel h [Done h' r].
+Proof.
+  intros Hn o [<-|[]] C. cbn in C. apply Nat.eqb_eq in C. congruence.
+Qed.
+
+Lemma absent_step s h e : absent s h -> (forall rk id, e <> Start h rk id) ->
+  absent (fst (step s e)) h /\ only_cancel h (snd (step s e)).
+Proof.
+  intros [A1 A2] Hn. destruct e as [h' rk id|a|h'|h'].
   - assert (Hh : h' <> h) by (intros ->; exact (Hn rk id eq_refl)).
-    cbn [step]. split.
-    + assert (X : absent (register s (first_kind rk) id (mkW h' (subs_of rk))) h).
-      { split.
-        - intros k i w. rewrite get_register. destruct (akind_eqb k (first_kind rk) && (i =? id)).
-          + intros [= <-]. exact Hh.
-          + apply A1.
-        - intros i. unfold register. rewrite resum_with_map. apply A2. }
-      destruct (closed s); exact X.
-    + destruct (closed s); cbn [snd]; [|intros o []].
-      intros o [<-|[]]. cbn. apply Nat.eqb_neq. exact Hh.
-  - cbn [step]. destruct (closed s); [split; [split; assumption|intros o []]|].
+    cbn [step].
+    assert (X : absent (register s (first_kind rk) id (mkW h' (subs_of rk))) h).
+    { split.
+      - intros k i w. rewrite get_register. destruct (akind_eqb k (first_kind rk) && (i =? id)).
+        + intros [= <-]. exact Hh.
+        + apply A1.
+      - intros i. unfold register. rewrite resum_with_map. apply A2. }
+    destruct (closed s); cbn [fst snd].
+    + split; [exact X|apply only_cancel_other; exact Hh].
+    + split; [apply absent_with_live; exact X|apply only_cancel_nil].
+  - cbn [step]. destruct (closed s); [split; [split; assumption|apply only_cancel_nil]|].
     assert (X : absent (snd (take s (a_kind a) (a_id a))) h).
     { split.
       - intros k i w. rewrite get_take. destruct (akind_eqb k (a_kind a) && (i =? a_id a)); [discriminate|apply A1].
       - intros i. unfold take. cbn [snd]. rewrite resum_with_map. apply A2. }
     unfold take in *. cbn [snd] in X.
-    destruct (wm_get (smap s (a_kind a)) (a_id a)) as [w|] eqn:G; [|split; [exact X|intros o []]].
+    destruct (wm_get (smap s (a_kind a)) (a_id a)) as [w|] eqn:G; [|split; [exact X|apply only_cancel_nil]].
     pose proof (A1 _ _ _ G) as Hw.
-    assert (D : forall r o, In o [Done (w_h w) r] -> concerns h o = false).
-    { intros r o [<-|[]]. cbn. apply Nat.eqb_neq. exact Hw. }
-    destruct (a_kind a) eqn:K; cbn [fst snd]; try (split; [exact X|apply D]).
-    + split; [|intros o []]. destruct X as [X1 X2]. split.
+    destruct (negb (mem_nat (w_h w) (live (with_map s (a_kind a) (wm_del (smap s (a_kind a)) (a_id a))))));
+      [split; [exact X|apply only_cancel_nil]|].
+    pose proof (absent_with_live _ (lv_del (live (with_map s (a_kind a) (wm_del (smap s (a_kind a)) (a_id a)))) (w_h w)) _ X) as X'.
+    destruct (a_kind a) eqn:K; cbn [fst snd]; try (split; [exact X'|apply only_cancel_other; exact Hw]).
+    + split; [|apply only_cancel_nil]. destruct X' as [X1 X2]. split.
       * intros k i w'. rewrite smap_with_resum. apply X1.
       * intros i. cbn [resum with_resum]. rewrite in_app_iff. intros [Hin|[Hin|[]]]; [exact (X2 _ Hin)|].
         injection Hin as E _. exact (Hw E).
     + destruct (Nat.eqb (length (a_codes a)) (length (w_subs w))); cbn [fst snd].
-      * split; [exact X|apply D].
-      * split; [split; [intros k i w'; rewrite smap_with_closed; apply (proj1 X)|intros i; apply (proj2 X)]|].
-        intros o [<-|[<-|[]]]; [cbn; apply Nat.eqb_neq; exact Hw|reflexivity].
-  - cbn [step]. destruct (closed s); [split; [split; assumption|intros o []]|].
-    destruct (rs_get (resum s) h') as [id|] eqn:R; [|split; [split; assumption|intros o []]].
+      * split; [exact X'|apply only_cancel_other; exact Hw].
+      * split; [split; [intros k i w'; rewrite smap_with_closed; apply (proj1 X')|intros i; apply (proj2 X')]|].
+        intros o [<-|[<-|[]]] C; [cbn in C; apply Nat.eqb_eq in C; congruence|discriminate].
+  - cbn [step]. destruct (closed s); [split; [split; assumption|apply only_cancel_nil]|].
+    destruct (rs_get (resum s) h') as [id|] eqn:R; [|split; [split; assumption|apply only_cancel_nil]].
     assert (Hh : h' <> h).
     { intros ->. apply rs_get_in in R. exact (A2 _ R). }
     cbn [fst snd]. split.
-    + split.
+    + apply absent_with_live. split.
       * intros k i w. rewrite get_register, smap_with_resum.
         destruct (akind_eqb k KPubComp && (i =? id)); [intros [= <-]; exact Hh|apply A1].
       * intros i. unfold register. rewrite resum_with_map. cbn [resum with_resum].
         rewrite rs_del_in. intros [Hin _]. exact (A2 _ Hin).
-    + intros o [<-|[]]. cbn. apply Nat.eqb_neq. exact Hh.
+    + intros o [<-|[]] C. cbn in C. apply Nat.eqb_eq in C. congruence.
+  - cbn [step]. destruct (closed s); [split; [split; assumption|apply only_cancel_nil]|].
+    destruct (mem_nat h' (live s)); cbn [fst snd].
+    + split; [apply absent_with_live; split; assumption|].
+      intros o [<-|[]] C. cbn in C. apply Nat.eqb_eq in C. subst. reflexivity.
+    + destruct (rs_get (resum s) h') as [id|] eqn:R; cbn [fst snd]; [|split; [split; assumption|apply only_cancel_nil]].
+      split.
+      * split; [intros k i w; rewrite smap_with_resum; apply A1|].
+        intros i. cbn [resum with_resum]. rewrite rs_del_in. intros [Hin _]. exact (A2 _ Hin).
+      * intros o [<-|[]] C. cbn in C. apply Nat.eqb_eq in C. subst. reflexivity.
 Qed.
 
 Lemma absent_run h : forall evs s, absent s h -> no_start h evs ->
-  forall t o, In o (nth t (run s evs) []) -> concerns h o = false.
+  forall t, only_cancel h (nth t (run s evs) []).
 Proof.
-  induction evs as [|e r IH]; intros s A Hn t o Hin; [destruct t; contradiction|].
+  induction evs as [|e r IH]; intros s A Hn t; [destruct t; apply only_cancel_nil|].
   destruct (absent_step s h e A) as [A' O].
   { intros rk id ->. apply (Hn rk id). left. reflexivity. }
-  cbn [run] in Hin. destruct (step s e) as [s' o'] eqn:E. cbn [fst snd] in *.
-  destruct t as [|t']; cbn [nth] in Hin; [exact (O _ Hin)|].
-  apply (IH s' A') with (t := t'); [|exact Hin].
+  cbn [run]. destruct (step s e) as [s' o'] eqn:E. cbn [fst snd] in *.
+  destruct t as [|t']; cbn [nth]; [exact O|].
+  apply (IH s' A').
   intros rk id H. apply (Hn rk id). right. exact H.
 Qed.
 
 Lemma step_start_open s h rk id : closed s = false ->
-  step s (Start h rk id) = (register s (first_kind rk) id (mkW h (subs_of rk)), []).
+  step s (Start h rk id) =
+  (let s1 := register s (first_kind rk) id (mkW h (subs_of rk)) in with_live s1 (h :: live s1), []).
 Proof. intros H. cbn [step]. rewrite H. reflexivity. Qed.
 
 Lemma closed_register s k id w : closed (register s k id w) = closed s.
 Proof. unfold register. apply closed_with_map. Qed.
 
 (* If a second request registers under the kind and identifier of one that is still
-   outstanding, the first waiter is overwritten: the first request never returns, whatever
-   arrives later (its own acknowledgement included). *)
+   outstanding, the first waiter is overwritten: the first request never returns on an
+   acknowledgement, whatever arrives later (its own acknowledgement included) — the only way
+   it ever returns is by giving up (its context). *)
 Theorem shared_id_first_never_completes h1 h2 rk1 rk2 id post :
   h1 <> h2 -> first_kind rk1 = first_kind rk2 -> no_start h1 post ->
-  forall t r, ~ In (Done h1 r) (nth t (run sig_init (Start h1 rk1 id :: Start h2 rk2 id :: post)) []).
+  forall t r, In (Done h1 r) (nth t (run sig_init (Start h1 rk1 id :: Start h2 rk2 id :: post)) []) ->
+  r = RCancelled.
 Proof.
   intros Hh Hk Hn t r Hin.
   assert (A : absent (state_after sig_init [Start h1 rk1 id; Start h2 rk2 id]) h1).
   { cbn [state_after]. rewrite (step_start_open sig_init) by reflexivity. cbn [fst].
-    rewrite step_start_open by (rewrite closed_register; reflexivity). cbn [fst]. split.
-    - intros k i w. rewrite !get_register. rewrite Hk.
+    rewrite step_start_open by (rewrite closed_with_live, closed_register; reflexivity). cbn [fst].
+    apply absent_with_live. split.
+    - intros k i w. rewrite get_register, smap_with_live, get_register. rewrite Hk.
       destruct (akind_eqb k (first_kind rk2) && (i =? id)).
       + intros [= <-]. cbn. congruence.
       + destruct k; discriminate.
-    - intros i. unfold register. rewrite !resum_with_map. intros []. }
+    - intros i. unfold register. rewrite resum_with_map. cbn [resum with_live]. rewrite resum_with_map. intros []. }
   assert (R2 : run sig_init [Start h1 rk1 id; Start h2 rk2 id] = [[]; []]).
   { cbn [run]. rewrite (step_start_open sig_init) by reflexivity.
-    rewrite step_start_open by (rewrite closed_register; reflexivity). reflexivity. }
+    rewrite step_start_open by (rewrite closed_with_live, closed_register; reflexivity). reflexivity. }
   change (Start h1 rk1 id :: Start h2 rk2 id :: post) with ([Start h1 rk1 id; Start h2 rk2 id] ++ post) in Hin.
   rewrite run_app, R2 in Hin.
   destruct t as [|[|t]]; try (cbn in Hin; contradiction).
   cbn [app nth] in Hin.
-  pose proof (absent_run h1 post _ A Hn _ _ Hin) as C. cbn in C. rewrite Nat.eqb_refl in C. discriminate.
+  pose proof (absent_run h1 post _ A Hn t _ Hin) as C.
+  assert (E : Done h1 r = Done h1 RCancelled) by (apply C; cbn; apply Nat.eqb_refl).
+  congruence.
 Qed.
 
 (* ================= SUBACK return codes ================= *)
@@ -1471,15 +1550,22 @@ Qed.
 
 Lemma closed_step s e : closed (fst (step s e)) = closed s || existsb is_closed (snd (step s e)).
 Proof.
-  destruct e as [h rk id|a|h]; cbn [step].
-  - destruct (closed s) eqn:C; cbn [fst snd]; rewrite closed_register, C; reflexivity.
+  destruct e as [h rk id|a|h|h]; cbn [step].
+  - destruct (closed s) eqn:C; cbn [fst snd]; rewrite ?closed_with_live, closed_register, C; reflexivity.
   - destruct (closed s) eqn:C; [cbn; exact C|]. unfold take.
     destruct (wm_get (smap s (a_kind a)) (a_id a)) as [w|]; [|cbn [fst snd]; rewrite closed_with_map, C; reflexivity].
-    destruct (a_kind a); cbn [fst snd]; try (rewrite closed_with_map, C; reflexivity).
+    destruct (negb (mem_nat (w_h w) (live (with_map s (a_kind a) (wm_del (smap s (a_kind a)) (a_id a))))));
+      [cbn [fst snd]; rewrite closed_with_map, C; reflexivity|].
+    destruct (a_kind a); cbn [fst snd]; try (rewrite closed_with_live, closed_with_map, C; reflexivity).
     + cbn. exact C.
-    + destruct (Nat.eqb (length (a_codes a)) (length (w_subs w))); cbn [fst snd]; [rewrite closed_with_map, C|]; reflexivity.
+    + destruct (Nat.eqb (length (a_codes a)) (length (w_subs w))); cbn [fst snd];
+        [rewrite closed_with_live, closed_with_map, C|]; reflexivity.
   - destruct (closed s) eqn:C; [cbn; exact C|].
-    destruct (rs_get (resum s) h); cbn [fst snd]; [rewrite closed_register; cbn; exact C|cbn; rewrite C; reflexivity].
+    destruct (rs_get (resum s) h); cbn [fst snd];
+      [rewrite closed_with_live, closed_register; cbn; exact C|cbn; rewrite C; reflexivity].
+  - destruct (closed s) eqn:C; [cbn; exact C|].
+    destruct (mem_nat h (live s)); [cbn; exact C|].
+    destruct (rs_get (resum s) h); cbn; exact C.
 Qed.
 
 Lemma open_after : forall evs s, closed s = false ->
@@ -1509,6 +1595,7 @@ Theorem suback_codes evs pre h subs id mid a post :
   evs = pre ++ Start h (RSub subs) id :: mid ++ Recv a :: post ->
   own_ack KSubAck id (Recv a) = true ->
   (forall e, In e mid -> own_ack KSubAck id e = false) ->
+  ~ In (Cancel h) mid ->
   let T := length (pre ++ Start h (RSub subs) id :: mid) in
   firstn T (closings (run sig_init evs)) = repeat false T ->
   nth T (run sig_init evs) [] =
@@ -1516,7 +1603,7 @@ Theorem suback_codes evs pre h subs id mid a post :
     then [Done h (RSuccess (grant subs (a_codes a)))]
     else [Done h RInvalidSubAck; Closed].
 Proof.
-  intros W E Ha Hm T Hc.
+  intros W E Ha Hm Hcn T Hc.
   destruct (wf_unique_start evs pre h (RSub subs) id _ W E) as [Np _].
   set (A := pre ++ Start h (RSub subs) id :: mid) in *.
   assert (E' : evs = A ++ Recv a :: post) by (rewrite E; unfold A; rewrite <- app_assoc; reflexivity).
@@ -1524,23 +1611,188 @@ Proof.
   { clear - W E'. subst evs. unfold wf in *. revert W. generalize sig_init, (@nil nat).
     induction A as [|e r IH]; intros s u W; [reflexivity|].
     cbn [app] in W. apply wf_from_cons in W as [Hok W]. cbn [wf_from].
-    destruct e as [h' rk' id'|a'|h']; cbn [ok_event used_after] in *; try (apply IH; exact W).
+    destruct e as [h' rk' id'|a'|h'|h']; cbn [ok_event used_after] in *; try (apply IH; exact W).
     destruct Hok as [H1 H2]. rewrite H1, H2. cbn. apply IH; exact W. }
   assert (CA : closings (run sig_init A) = repeat false (length A)).
   { rewrite E', run_app, closings_app in Hc. rewrite firstn_app_exact in Hc; [exact Hc|].
     rewrite closings_length, run_length. reflexivity. }
   pose proof (open_after A sig_init eq_refl CA) as Hopen.
   destruct (inv_after A sig_init (fun _ => PNone) [] Inv_init eq_refl WA Hopen) as [u I].
-  destruct (prefix_to_wait h (RSub subs) id pre mid Np Hm) as [_ R2]. fold A in R2.
+  destruct (prefix_to_wait h (RSub subs) id pre mid Np Hm Hcn) as [_ R2]. fold A in R2.
   rewrite spec_end_quiet in R2. injection R2 as R2. cbn [first_kind subs_of] in R2.
   pose proof (inv_wait _ _ _ I _ _ _ _ R2) as G. cbn [smap] in G.
+  assert (Lh : mem_nat h (live (state_after sig_init A)) = true).
+  { apply mem_nat_true. apply (inv_live _ _ _ I). rewrite R2. apply is_wait_PWait. }
   rewrite E', run_app. rewrite app_nth2 by (rewrite run_length; fold T; lia).
   rewrite run_length. fold T. rewrite Nat.sub_diag. cbn [run].
   destruct (step (state_after sig_init A) (Recv a)) as [s' o] eqn:S. cbn [nth].
   cbn [step] in S. rewrite Hopen in S. unfold take in S.
   cbn [own_ack] in Ha. apply key_eqb_true in Ha as [Ka Ia]. rewrite Ka, Ia in S. cbn [smap] in S.
-  rewrite G in S. cbn [w_h w_subs] in S.
+  rewrite G in S. rewrite live_with_map in S. cbn [w_h w_subs] in S. rewrite Lh in S. cbn [negb] in S.
   destruct (Nat.eqb (length (a_codes a)) (length subs)); injection S as _ <-; reflexivity.
+Qed.
+
+(* ================= a request returns at most once; one that gave up never succeeds ================= *)
+Lemma hist_started h pre p : hist h pre p -> p <> PNone -> p <> PFin -> exists rk id, In (Start h rk id) pre.
+Proof.
+  destruct p as [|k id subs|id|]; cbn [hist]; intros H N1 N2; try congruence.
+  - destruct H as [(p0 & rk & E0 & _)|(_ & _ & p0 & _ & _ & _ & _ & E0 & _)];
+      apply nth_error_In in E0; eauto.
+  - destruct H as (p0 & t1 & _ & E0 & _). apply nth_error_In in E0. eauto.
+Qed.
+
+(* an event at which h returns: the output for h is exactly that return, h is finished
+   afterwards, and h was started at or before this event *)
+Lemma done_step h pre st e c r : hist h pre (fst st) ->
+  In (Done h r) (snd (spec_step h st e c)) ->
+  snd (spec_step h st e c) = [Done h r] /\ fst (fst (spec_step h st e c)) = PFin /\
+  exists rk id, In (Start h rk id) (pre ++ [e]).
+Proof.
+  destruct st as [p cl]. cbn [fst]. intros H Hin. cbn [spec_step] in *. destruct cl.
+  { destruct e as [h' rk id|a|h'|h']; try contradiction.
+    destruct (Nat.eqb h' h) eqn:E; [|contradiction]. apply Nat.eqb_eq in E. subst h'.
+    destruct Hin as [Hin|[]]. injection Hin as <-. cbn [fst snd].
+    split; [reflexivity|]. split; [reflexivity|]. exists rk, id. apply in_or_app. right. left. reflexivity. }
+  assert (St : p <> PNone -> p <> PFin -> exists rk id, In (Start h rk id) (pre ++ [e])).
+  { intros N1 N2. destruct (hist_started h pre p H N1 N2) as (rk & id & X). exists rk, id.
+    apply in_or_app. left. exact X. }
+  destruct (react h p e) as [p' o] eqn:R. cbn [fst snd] in *.
+  destruct p as [|k id subs|id|].
+  - exfalso. destruct e as [h' rk id|a|h'|h']; cbn [react] in R; try (injection R as _ <-; contradiction).
+    destruct (Nat.eqb h' h); injection R as _ <-; contradiction.
+  - assert (S' : exists rk id0, In (Start h rk id0) (pre ++ [e])) by (apply St; discriminate).
+    rewrite react_wait_or in R. destruct (own_ack k id e) eqn:O.
+    + destruct e as [h' rk i|a|h'|h']; try discriminate. cbn [own_ack] in O. rewrite react_recv, O in R.
+      destruct k; cbn [on_ack] in R;
+        try (injection R as <- <-; destruct Hin as [Hin|[]]; injection Hin as <-; auto).
+      * injection R as _ <-. contradiction.
+      * destruct (Nat.eqb (length (a_codes a)) (length subs)); injection R as <- <-;
+          destruct Hin as [Hin|[]]; injection Hin as <-; auto.
+    + destruct e as [h' rk i|a|h'|h']; cbn [on_cancel] in R; try (injection R as _ <-; contradiction).
+      destruct (Nat.eqb h' h); injection R as <- <-; [|contradiction].
+      destruct Hin as [Hin|[]]. injection Hin as <-. auto.
+  - assert (S' : exists rk id0, In (Start h rk id0) (pre ++ [e])) by (apply St; discriminate).
+    destruct e as [h' rk i|a|h'|h']; cbn [react] in R; try (injection R as _ <-; contradiction);
+      (destruct (Nat.eqb h' h); injection R as <- <-; [|contradiction]).
+    + destruct Hin as [Hin|[]]. discriminate.
+    + destruct Hin as [Hin|[]]. injection Hin as <-. auto.
+  - exfalso. replace o with (@nil out) in Hin by (destruct e; cbn [react] in R; congruence). contradiction.
+Qed.
+
+Lemma NoDup_app_disjoint {A} (l1 l2 : list A) x : NoDup (l1 ++ l2) -> In x l1 -> ~ In x l2.
+Proof.
+  induction l1 as [|y l IH]; intros ND H1 H2; [exact H1|].
+  cbn [app] in ND. inversion ND as [|? ? Hy ND']; subst. destruct H1 as [->|H1].
+  - apply Hy. apply in_or_app. right. exact H2.
+  - exact (IH ND' H1 H2).
+Qed.
+
+Lemma in_view h o os : In o os -> concerns h o = true -> In o (filter (concerns h) os).
+Proof. intros H C. apply filter_In. auto. Qed.
+
+Lemma nth_view h outs t : nth t (view h outs) [] = filter (concerns h) (nth t outs []).
+Proof.
+  unfold view. destruct (Nat.lt_ge_cases t (length outs)) as [L|L].
+  - rewrite (nth_indep _ _ (filter (concerns h) [])) by (rewrite map_length; exact L).
+    apply (map_nth (filter (concerns h))).
+  - rewrite !nth_overflow; [reflexivity|exact L|rewrite map_length; exact L].
+Qed.
+
+Lemma nth_repeat_nil {A} n q : nth q (repeat (@nil A) n) [] = [].
+Proof. revert q. induction n as [|n IH]; intros [|q]; cbn; auto. Qed.
+
+(* what h outputs at the event at which it returns, and nothing for h after it *)
+Lemma return_is_final evs h t r : wf evs = true ->
+  In (Done h r) (nth t (run sig_init evs) []) ->
+  nth t (view h (run sig_init evs)) [] = [Done h r] /\
+  forall t', (t < t')%nat -> nth t' (view h (run sig_init evs)) [] = [].
+Proof.
+  intros W Hin.
+  assert (Lt : (t < length evs)%nat).
+  { destruct (Nat.lt_ge_cases t (length evs)) as [L|L]; [exact L|].
+    rewrite nth_overflow in Hin by (rewrite run_length; exact L). contradiction. }
+  assert (Hv : In (Done h r) (nth t (view h (run sig_init evs)) [])).
+  { rewrite nth_view. apply in_view; [exact Hin|]. cbn. apply Nat.eqb_refl. }
+  pose proof (wf_from_starts _ _ _ W) as [ND _].
+  rewrite (refines evs h W) in *.
+  assert (Lc : length (closings (run sig_init evs)) = length evs) by (rewrite closings_length; apply run_length).
+  remember (closings (run sig_init evs)) as cls. clear Heqcls.
+  destruct (nth_error evs t) as [e|] eqn:Ee; [|apply nth_error_None in Ee; lia].
+  destruct (nth_error cls t) as [c|] eqn:Ec; [|apply nth_error_None in Ec; lia].
+  apply nth_error_split in Ee as (pre & post & -> & Lp).
+  apply nth_error_split in Ec as (cpre & cpost & -> & Lcp).
+  assert (Lpost : length cpost = length post).
+  { rewrite !app_length in Lc. cbn [length] in Lc. lia. }
+  rewrite spec_run_app in * by lia.
+  assert (Lr : length (spec_run h (PNone, false) pre cpre) = t) by (rewrite spec_run_length; lia).
+  cbn [spec_run] in *.
+  pose proof (hist_end h pre cpre [] (PNone, false) Logic.I) as Hh. cbn [app] in Hh.
+  destruct (spec_step h (spec_end h (PNone, false) pre cpre) e c) as [st' o] eqn:St.
+  rewrite app_nth2 in Hv by lia. rewrite Lr, Nat.sub_diag in Hv. cbn [nth] in Hv.
+  pose proof (done_step h pre _ e c r Hh) as D. rewrite St in D. cbn [fst snd] in D.
+  destruct (D Hv) as (Eo & Ef & rk & id & Hs). subst o.
+  split.
+  - rewrite app_nth2 by lia. rewrite Lr, Nat.sub_diag. reflexivity.
+  - intros t' Ltt. rewrite app_nth2 by lia. rewrite Lr.
+    destruct (t' - t)%nat as [|q] eqn:Q; [lia|]. cbn [nth].
+    destruct st' as [p' c']. cbn [fst] in Ef. subst p'.
+    rewrite fin_segment; [apply nth_repeat_nil| |exact Lpost].
+    intros rk' id' Hin'.
+    replace (pre ++ e :: post) with ((pre ++ [e]) ++ post) in ND by (rewrite <- app_assoc; reflexivity).
+    rewrite starts_app in ND.
+    apply (NoDup_app_disjoint _ _ h ND); apply in_starts; eauto.
+Qed.
+
+(* A request returns at most once, with one result. *)
+Theorem done_once evs h t t' r r' : wf evs = true ->
+  In (Done h r) (nth t (run sig_init evs) []) -> In (Done h r') (nth t' (run sig_init evs) []) ->
+  t = t' /\ r = r'.
+Proof.
+  intros W H1 H2.
+  destruct (return_is_final evs h t r W H1) as [E1 F1].
+  destruct (return_is_final evs h t' r' W H2) as [E2 F2].
+  destruct (Nat.lt_trichotomy t t') as [L|[L|L]].
+  - rewrite (F1 _ L) in E2. discriminate.
+  - subst t'. split; [reflexivity|]. rewrite E1 in E2. congruence.
+  - rewrite (F2 _ L) in E1. discriminate.
+Qed.
+
+(* A request that gave up (context cancelled / deadline exceeded) never returns success —
+   neither before nor after, whatever acknowledgements arrive late. *)
+Theorem cancelled_never_succeeds evs h t : wf evs = true ->
+  In (Done h RCancelled) (nth t (run sig_init evs) []) ->
+  forall t' g, ~ In (Done h (RSuccess g)) (nth t' (run sig_init evs) []).
+Proof.
+  intros W H1 t' g H2. destruct (done_once evs h t t' _ _ W H1 H2) as [_ E]. discriminate.
+Qed.
+
+(* ... and a Cancel of a request that is blocked waiting does make it return its context's
+   error (at that event) *)
+Theorem cancel_returns_ctx_error evs pre h rk id mid post :
+  wf evs = true -> evs = pre ++ Start h rk id :: mid ++ Cancel h :: post ->
+  (forall e, In e mid -> own_ack (first_kind rk) id e = false) -> ~ In (Cancel h) mid ->
+  let T := length (pre ++ Start h rk id :: mid) in
+  firstn T (closings (run sig_init evs)) = repeat false T ->
+  view h (run sig_init evs) = repeat [] T ++ [Done h RCancelled] :: repeat [] (length post).
+Proof.
+  intros W E Hm Hcn T Hc. rewrite (refines evs h W).
+  destruct (wf_unique_start evs pre h rk id _ W E) as [Np Nq].
+  assert (Npost : no_start h post).
+  { intros rk' id' Hin. apply (Nq rk' id'). apply in_or_app. right. right. exact Hin. }
+  pose proof (split_closings _ _ Hc) as Ec.
+  assert (Lc : length (closings (run sig_init evs)) = length evs) by (rewrite closings_length; apply run_length).
+  remember (closings (run sig_init evs)) as cls. clear Heqcls.
+  assert (E' : evs = (pre ++ Start h rk id :: mid) ++ Cancel h :: post) by (rewrite E, <- app_assoc; reflexivity).
+  assert (Le : length evs = (T + S (length post))%nat) by (rewrite E', app_length; reflexivity).
+  destruct (skipn T cls) as [|c cpost] eqn:Es.
+  { exfalso. rewrite Ec, app_nil_r, repeat_length in Lc. lia. }
+  assert (Lp : length cpost = length post).
+  { rewrite Ec, app_length, repeat_length in Lc. cbn [length] in Lc. lia. }
+  rewrite Ec, E'.
+  destruct (prefix_to_wait h rk id pre mid Np Hm Hcn) as [R1 R2]. fold T in R1, R2.
+  rewrite spec_run_app by (rewrite repeat_length; reflexivity). rewrite R1, R2.
+  f_equal. cbn [spec_run spec_step react]. rewrite Nat.eqb_refl. f_equal.
+  apply fin_segment; [exact Npost|exact Lp].
 Qed.
 
 (* ================= non-vacuity: concrete histories satisfying the hypotheses ================= *)
@@ -1574,14 +1826,15 @@ Proof. vm_compute. reflexivity. Qed.
 Example ex_single_ack : exists pre h rk id mid a post,
   wf ex_hist = true /\ ex_hist = pre ++ Start h rk id :: mid ++ Recv a :: post /\
   first_kind rk <> KPubRec /\ own_ack (first_kind rk) id (Recv a) = true /\
-  (forall e, In e mid -> own_ack (first_kind rk) id e = false) /\
+  (forall e, In e mid -> own_ack (first_kind rk) id e = false) /\ ~ In (Cancel h) mid /\
   firstn (length (pre ++ Start h rk id :: mid)) (closings (run sig_init ex_hist))
     = repeat false (length (pre ++ Start h rk id :: mid)).
 Proof.
   exists [], 0%nat, RPub1, 7, (firstn 8 (tl ex_hist)), (ackOf KPubAck 7), (skipn 10 ex_hist).
   split; [exact ex_hist_wf|]. split; [reflexivity|]. split; [discriminate|]. split; [reflexivity|].
-  split; [|vm_compute; reflexivity].
-  intros e Hin. cbn in Hin. repeat (destruct Hin as [<-|Hin]; [reflexivity|]). contradiction.
+  split; [|split; [|vm_compute; reflexivity]].
+  - intros e Hin. cbn in Hin. repeat (destruct Hin as [<-|Hin]; [reflexivity|]). contradiction.
+  - intros Hin. cbn in Hin. repeat (destruct Hin as [Hin|Hin]; [discriminate|]). contradiction.
 Qed.
 
 (* hypotheses of [qos2_completes_at_pubcomp] (request 1) *)
@@ -1590,7 +1843,7 @@ Example ex_qos2 : exists pre h id m1 a1 m2 m3 a2 post,
   ex_hist = pre ++ Start h RPub2 id :: m1 ++ Recv a1 :: m2 ++ Resume h :: m3 ++ Recv a2 :: post /\
   own_ack KPubRec id (Recv a1) = true /\ own_ack KPubComp id (Recv a2) = true /\
   (forall e, In e m1 -> own_ack KPubRec id e = false) /\ ~ In (Resume h) m2 /\
-  (forall e, In e m3 -> own_ack KPubComp id e = false) /\
+  (forall e, In e m3 -> own_ack KPubComp id e = false) /\ ~ In (Cancel h) (m1 ++ m2 ++ m3) /\
   firstn (length (pre ++ Start h RPub2 id :: m1) + (S (length m2) + S (length m3))) (closings (run sig_init ex_hist))
     = repeat false (length (pre ++ Start h RPub2 id :: m1) + (S (length m2) + S (length m3))).
 Proof.
@@ -1603,6 +1856,7 @@ Proof.
   split. { intros e Hin. cbn in Hin. repeat (destruct Hin as [<-|Hin]; [reflexivity|]). contradiction. }
   split. { intros [H|[]]. discriminate. }
   split. { intros e Hin. cbn in Hin. repeat (destruct Hin as [<-|Hin]; [reflexivity|]). contradiction. }
+  split. { intros Hin. cbn in Hin. repeat (destruct Hin as [Hin|Hin]; [discriminate|]). contradiction. }
   vm_compute. reflexivity.
 Qed.
 
@@ -1619,6 +1873,45 @@ Proof.
   intros rk id Hin. cbn in Hin.
   repeat (destruct Hin as [Hin|Hin]; [try discriminate; injection Hin as <- <-; right; cbn; intros [H|[]]; discriminate|]).
   contradiction.
+Qed.
+
+(* requests that give up: 0 (QoS 1) and 2 (Subscribe) before any acknowledgement, 1 (QoS 2)
+   while waiting for PUBCOMP; a new request 3 is started in between; the late acknowledgements
+   of the cancelled requests arrive before request 3's own PUBACK and complete nobody *)
+Definition ex_cancel : list event :=
+  [ Start 0 RPub1 5; Start 1 RPub2 6; Start 2 (RSub [([97], 1)]) 7;
+    Cancel 0; Cancel 2;
+    Start 3 RPub1 8;
+    Recv (ackOf KPubAck 5); Recv (mkAck KSubAck 7 [1]);
+    Recv (ackOf KPubRec 6); Resume 1; Cancel 1; Recv (ackOf KPubComp 6);
+    Recv (ackOf KPubAck 8) ].
+
+Example ex_cancel_wf : wf ex_cancel = true.
+Proof. vm_compute. reflexivity. Qed.
+
+Example ex_cancel_run : run sig_init ex_cancel =
+  [ []; []; []; [Done 0 RCancelled]; [Done 2 RCancelled]; []; []; []; []; [WPubRel 1 6];
+    [Done 1 RCancelled]; []; [Done 3 (RSuccess [])] ].
+Proof. vm_compute. reflexivity. Qed.
+
+(* the late PUBACK of the cancelled request 0 finds a stale entry and nobody awaits it *)
+Example ex_cancel_stale :
+  wm_has (smap (state_after sig_init (firstn 6 ex_cancel)) KPubAck) 5 = true /\
+  awaited (state_after sig_init (firstn 6 ex_cancel)) KPubAck 5 = false.
+Proof. split; vm_compute; reflexivity. Qed.
+
+(* hypotheses of [cancel_returns_ctx_error] (request 0) *)
+Example ex_cancel_hyp : exists pre h rk id mid post,
+  wf ex_cancel = true /\ ex_cancel = pre ++ Start h rk id :: mid ++ Cancel h :: post /\
+  (forall e, In e mid -> own_ack (first_kind rk) id e = false) /\ ~ In (Cancel h) mid /\
+  firstn (length (pre ++ Start h rk id :: mid)) (closings (run sig_init ex_cancel))
+    = repeat false (length (pre ++ Start h rk id :: mid)).
+Proof.
+  exists [], 0%nat, RPub1, 5, [Start 1 RPub2 6; Start 2 (RSub [([97], 1)]) 7], (skipn 4 ex_cancel).
+  split; [exact ex_cancel_wf|]. split; [reflexivity|].
+  split; [|split; [|vm_compute; reflexivity]].
+  - intros e Hin. cbn in Hin. repeat (destruct Hin as [<-|Hin]; [reflexivity|]). contradiction.
+  - intros Hin. cbn in Hin. repeat (destruct Hin as [Hin|Hin]; [discriminate|]). contradiction.
 Qed.
 
 (* a miscounted SUBACK: ErrInvalidSubAck for the subscriber, transport closed *)
